@@ -115,14 +115,16 @@ def const_conversion(ck, rule):
     for pf in pfs:
         if pf.end == "raise":
             continue
-        eq, ne = str_state([(g[2] if g[2] is not None else g[0], g[1]) for g in pf.guards], "op_input_size")
+        cur = pf.env.get("op_input_size")
+        curname = dotted(cur) if cur is not None and dotted(cur) else "op_input_size"
+        eq, ne = str_state(pf.guards, curname)      # substituted tests: the value in force after `op_input_size = self.config.op_input_size`
         keys = sorted(eq, key=lambda v: str(v)) if eq else []
         st_fx = isinstance_state(pf.guards, xp)
         if st_fx is True:
             ck.check(pf.ret is not None and dotted(pf.ret) == xp, rule, cc, "an Fxp operand is passed through unchanged", "returns %s" % (src(pf.ret) if pf.ret is not None else None), pf.ret_stmt, nontrivial=False)
             continue
         key = keys[0] if keys else None
-        if key is None or pf.ret is None:
+        if not keys or pf.ret is None:
             continue
         r = peel(pf.ret)[0]
         isctor = isinstance(r, ast.Call) and prog.is_fxp_ctor(cc, r)
@@ -686,9 +688,10 @@ def conversions(ck, rule):
     okr = all(isinstance(n.value, ast.Attribute) and dotted(n.value) == "self.val" for n in ast.walk(rw.node) if isinstance(n, ast.Return))
     ck.check(okr, rule, rw, "raw() returns the stored signed code", "raw() returns something else", rw.node)
     u = prog.func("objects.Fxp.uraw")
-    for n in ast.walk(u.node):
-        if isinstance(n, ast.Return):
-            e = peel(n.value)[0]
+    for pf_ in fpaths(prog, u):
+        if pf_.end == "return" and pf_.ret is not None:
+            n = pf_.ret_stmt
+            e = peel(pf_.ret)[0]
             M = exp2(Term.var("self.n_word"))
             good = False
             why = "not the two's-complement image ite(val < 0, 2^n_word + val, val)"
@@ -716,7 +719,7 @@ def conversions(ck, rule):
                     pass
             elif isinstance(e, ast.Call) and "twos_complement_repr" in (dotted(e.func) or ""):
                 why = "twos_complement_repr maps patterns to signed codes (the inverse direction): unsigned codes >= 2^(n-1) become negative"
-            ck.check(good, rule, u, "uraw() is the n_word-bit two's-complement image: negative codes -> 2^n_word + code, others unchanged", "uraw returns %s" % src(n.value)[:80], n, why)
+            ck.check(good, rule, u, "uraw() is the n_word-bit two's-complement image: negative codes -> 2^n_word + code, others unchanged", "uraw returns %s" % src(pf_.ret)[:80], n, why)
     for name, conv, arg in (("__int__", "int", "int"), ("__float__", "float", "float")):
         m = prog.func("objects.Fxp." + name)
         okc = False
